@@ -1268,3 +1268,24 @@ impl<S: AsyncRead + AsyncWrite + Unpin> NoiseSocket<S> {
         }
     }
 }
+
+/// Verification wrappers for the handshake payload (`--cfg litep2p_verif` only).
+#[cfg(litep2p_verif)]
+pub mod verif {
+    use super::*;
+
+    /// Decode a received `NoiseHandshakePayload` and run `parse_and_verify_peer_id` on it.
+    pub fn parse_payload(payload: &[u8], dh_remote_pubkey: &[u8]) -> Result<PeerId, String> {
+        let payload = handshake_schema::NoiseHandshakePayload::decode(payload)
+            .map_err(|error| format!("decode: {error:?}"))?;
+
+        parse_and_verify_peer_id(payload, dh_remote_pubkey).map_err(|error| format!("{error:?}"))
+    }
+
+    /// The payload a fresh [`NoiseContext`] of `keypair` sends, with its static DH public key.
+    pub fn local_payload(keypair: &Keypair, role: Role) -> Result<(Vec<u8>, Vec<u8>), String> {
+        let context = NoiseContext::new(keypair, role).map_err(|error| format!("{error:?}"))?;
+
+        Ok((context.payload.clone(), context.keypair.public.clone()))
+    }
+}
